@@ -6,6 +6,7 @@
  *   hide <relpath>      rename(<root>/<relpath>, <stash>/<n>): the path disappears from the snapshot
  *   put <relpath> <hexbytes|->   (re)place a regular file (parents created), symlink <relpath> <target> likewise
  *   unhide              every hidden path is put back, every created one removed (reverse order)
+ *   trace 1|0           print the "lnode"/"mreq" lines described below (needs the HWLOC_VERIF hooks of /repo)
  *   components <flags> <name>    hwloc_topology_set_components;   pid <n>  hwloc_topology_set_pid;   kinds   CPU kinds through the public API
  *   xmlrt               export the loaded topology to an XML buffer, reload it into a second topology
  *                       carrying the same flags and type filters, print "xmlrt export=<rc> load=<rc>",
@@ -24,6 +25,110 @@
 
 #ifndef HWV_WATCHDOG
 #define HWV_WATCHDOG 120
+#endif
+
+#include <dirent.h>
+#include <fcntl.h>
+
+/* ---- tracing for the model of the Linux backend's NUMA discovery (coq/Text/LinuxNode.v) ----
+ * "trace 1": through the guarded hooks of /repo, print
+ *   - when look_sysfsnode starts: its configuration and the contents of what it is going to read ("lnode ..." lines,
+ *     file contents in hex, directory entries in readdir order), through the same root_fd;
+ *   - every memory object handed to hwloc__insert_object_by_cpuset with a NULL root ("mreq ..." lines), in order. */
+#ifdef HWLOC_VERIF
+extern void (*hwloc_verif_insert_cb)(struct hwloc_topology *topology, int when, struct hwloc_obj *root, struct hwloc_obj *obj, struct hwloc_obj *result) __attribute__((weak));
+extern void (*hwloc_verif_linuxnode_cb)(struct hwloc_topology *topology, int root_fd, int use_numa_distances, int use_numa_distances_for_cpuless,
+                                        int use_numa_initiators, int is_knl, int is_fake_numa_uniform, int arch_power, int need_memcaches, int need_memattrs) __attribute__((weak));
+static void mreq_cb(struct hwloc_topology *t, int when, struct hwloc_obj *root, struct hwloc_obj *obj, struct hwloc_obj *result)
+{
+  (void)t; (void)root; (void)result;
+  if (when != 2) return;
+  printf("mreq ty=%d os=%u cs=", (int)obj->type, obj->os_index); hwv_pset(stdout, obj->cpuset);
+  printf(" ns="); hwv_pset(stdout, obj->nodeset);
+  if (obj->type == HWLOC_OBJ_MEMCACHE) printf(" cd=%u csz=%llu", obj->attr->cache.depth, (unsigned long long)obj->attr->cache.size);
+  else printf(" cd=0 csz=0");
+  printf("\n");
+}
+static const char *ln_rel(const char *path, int root_fd) { if (root_fd >= 0) while (*path == '/') path++; return path; }
+static void ln_hex(const char *s) { if (!*s) printf("-"); for (; *s; s++) printf("%02x", (unsigned char)*s); }
+static void ln_file(int root_fd, const char *path, const char *tag)
+{
+  /* "<tag> <hex>" ("-empty" when nothing can be read), nothing at all when the file cannot be opened */
+  static char buf[1 << 20]; ssize_t n, tot = 0; int fd = openat(root_fd, ln_rel(path, root_fd), O_RDONLY);
+  if (fd < 0) return;
+  while (tot < (ssize_t)sizeof(buf) && (n = read(fd, buf + tot, sizeof(buf) - tot)) > 0) tot += n;
+  close(fd);
+  if (tot <= 0) { printf("%s -empty\n", tag); return; }
+  printf("%s ", tag);
+  for (n = 0; n < tot; n++) printf("%02x", (unsigned char)buf[n]);
+  printf("\n");
+}
+static DIR *ln_opendir(int root_fd, const char *path)
+{
+  int dfd = openat(root_fd, ln_rel(path, root_fd), O_RDONLY | O_DIRECTORY);
+  DIR *d = dfd >= 0 ? fdopendir(dfd) : NULL;
+  if (!d && dfd >= 0) close(dfd);
+  return d;
+}
+static void linuxnode_cb(struct hwloc_topology *t, int root_fd, int dist, int dcl, int init, int knl, int fake, int power, int msc, int mattr)
+{
+  const char *eo = getenv("HWLOC_DEBUG_ALLOW_OVERLAPPING_NODE_CPUSETS"), *ek = getenv("HWLOC_KNL_NUMA_QUIRK");
+  DIR *dir, *sub; struct dirent *de; char path[512], tag[96];
+  hwloc_bitmap_t seen = hwloc_bitmap_alloc();
+  int nvidia = 0;
+  if ((sub = ln_opendir(root_fd, "/proc/driver/nvidia/gpus"))) { nvidia = 1; closedir(sub); }
+  printf("lnode begin dist=%d dcl=%d init=%d knl=%d fake=%d power=%d msc=%d mattr=%d", dist, dcl, init, knl, fake, power, msc, mattr);
+  if (eo) printf(" overlap=%d", atoi(eo)); else printf(" overlap=-");
+  printf(" knlquirk=%d nvidia=%d rootnodes=%d\n", ek ? atoi(ek) : 1, nvidia, !hwloc_bitmap_iszero(hwloc_get_root_obj(t)->nodeset));
+  ln_file(root_fd, "/sys/devices/system/node/online", "lnode online");
+  dir = ln_opendir(root_fd, "/sys/devices/system/node");
+  if (!dir) { printf("lnode nodir\nlnode end\n"); hwloc_bitmap_free(seen); return; }
+  while ((de = readdir(dir)) != NULL) {
+    unsigned long os; char *end; int acc;
+    if (!strcmp(de->d_name, ".") || !strcmp(de->d_name, "..")) continue;
+    printf("lnode dir "); ln_hex(de->d_name); printf("\n");
+    if (strncmp(de->d_name, "node", 4)) continue;
+    os = strtoul(de->d_name + 4, &end, 0);
+    if (end == de->d_name + 4 || os > 100000 || hwloc_bitmap_isset(seen, (unsigned)os)) continue;
+    hwloc_bitmap_set(seen, (unsigned)os);
+    printf("lnode node %lu\n", os);
+    snprintf(path, sizeof(path), "/sys/devices/system/node/node%lu/cpumap", os);
+    snprintf(tag, sizeof(tag), "lnode f %lu cpumap", os); ln_file(root_fd, path, tag);
+    snprintf(path, sizeof(path), "/sys/devices/system/node/node%lu/distance", os);
+    snprintf(tag, sizeof(tag), "lnode f %lu distance", os); ln_file(root_fd, path, tag);
+    snprintf(path, sizeof(path), "/sys/devices/system/node/node%lu/memory_side_cache", os);
+    if ((sub = ln_opendir(root_fd, path))) {
+      struct dirent *e;
+      printf("lnode mdir %lu\n", os);
+      while ((e = readdir(sub)) != NULL) {
+        static const char *mf[] = {"size", "line_size", "indexing", NULL}; int k; unsigned depth;
+        if (strncmp(e->d_name, "index", 5)) continue;
+        depth = (unsigned)atoi(e->d_name + 5);      /* the backend reads index<depth>/..., not <name>/... */
+        printf("lnode m %lu ", os); ln_hex(e->d_name); printf("\n");
+        for (k = 0; mf[k]; k++) {
+          snprintf(path, sizeof(path), "/sys/devices/system/node/node%lu/memory_side_cache/index%u/%s", os, depth, mf[k]);
+          snprintf(tag, sizeof(tag), "lnode mf %lu %s", os, mf[k]); ln_file(root_fd, path, tag);
+        }
+      }
+      closedir(sub);
+    }
+    for (acc = 1; acc >= 0; acc--) {
+      snprintf(path, sizeof(path), "/sys/devices/system/node/node%lu/access%d/initiators", os, acc);
+      if ((sub = ln_opendir(root_fd, path))) {
+        struct dirent *e;
+        printf("lnode adir %lu %d\n", os, acc);
+        while ((e = readdir(sub)) != NULL) {
+          if (!strcmp(e->d_name, ".") || !strcmp(e->d_name, "..")) continue;
+          printf("lnode a %lu %d ", os, acc); ln_hex(e->d_name); printf("\n");
+        }
+        closedir(sub);
+      }
+    }
+  }
+  closedir(dir);
+  hwloc_bitmap_free(seen);
+  printf("lnode end\n");
+}
 #endif
 
 struct hidden { char *from; char *to; };   /* to == NULL: <from> was created by put/symlink, undo = remove it */
@@ -208,6 +313,16 @@ int main(void)
       errno = 0;
       rc = hwloc_topology_set_components(t, fl, end);
       printf("components rc=%d errno=%s\n", rc, rc < 0 ? hwv_errno_class(errno) : "0");
+    } else if (!strncmp(line, "trace ", 6)) {
+#ifdef HWLOC_VERIF
+      int on = atoi(line + 6);
+      if (&hwloc_verif_insert_cb && &hwloc_verif_linuxnode_cb) {       /* hooks absent in older trees */
+        hwloc_verif_insert_cb = on ? mreq_cb : NULL;
+        hwloc_verif_linuxnode_cb = on ? linuxnode_cb : NULL;
+        printf("trace rc=0\n");
+      } else
+#endif
+        printf("trace rc=-1\n");
     } else if (!strncmp(line, "pid ", 4) && t) {
       int rc; errno = 0;
       rc = hwloc_topology_set_pid(t, (hwloc_pid_t)atoi(line + 4));
